@@ -1,123 +1,7 @@
-// C13 (application level): the unmodified applications/poisson_dirichlet.cpp is compiled into this harness
-// (its main() renamed) and PoissonDirichlet::main runs on every simulated rank of an n-rank world; afterwards the
-// same program runs on ONE rank with the level range the n-rank run has chosen. The partition-independent numbers
-// the application prints (PCG defect history, H0/H1/... errors) must agree up to rounding.
-#include "runner.hpp"
-#include "simmpi/simmpi.hpp"
-
-#define main feat_app_poisson_dirichlet_main
+// C13 (application level): applications/poisson_dirichlet.cpp verbatim on simulated ranks vs. one rank
+#define main feat_app_renamed_main
 #include "/repo/applications/poisson_dirichlet.cpp"
 #undef main
-
-#include <iostream>
-#include <sstream>
-
-namespace
-{
-  struct Parsed { std::vector<double> defects; std::vector<double> errors; std::string chosen; int cmax = -1, cmin = -1; bool failed = false; };
-
-  Parsed parse_output(const std::string& out)
-  {
-    Parsed p;
-    std::istringstream is(out);
-    std::string line;
-    bool in_err = false;
-    while(std::getline(is, line))
-    {
-      if(line.compare(0, 4, "PCG:") == 0)
-      {
-        // "PCG:   3 : 1.234567e-05 / 2.345678e-04 / 0.123"
-        size_t c = line.find(':', 4);
-        if(c != std::string::npos) p.defects.push_back(atof(line.c_str() + c + 1));
-      }
-      else if(line.find("Chosen  Levels:") != std::string::npos)
-      {
-        p.chosen = line.substr(line.find(':') + 1);
-        std::istringstream ls(p.chosen); std::string tok; std::vector<int> lv;
-        while(ls >> tok) lv.push_back(atoi(tok.c_str()));
-        if(!lv.empty()) { p.cmax = lv.front(); p.cmin = lv.back(); }
-      }
-      else if(line.find("Error Analysis") != std::string::npos) in_err = true;
-      else if(in_err && line.find("-Norm") != std::string::npos && line.find(':') != std::string::npos)
-        p.errors.push_back(atof(line.c_str() + line.find(':') + 1));
-      if(line.find("FAILED") != std::string::npos) p.failed = true;
-    }
-    return p;
-  }
-
-  std::string run_app_world(int n, const std::string& mesh, const std::string& levels)
-  {
-    std::ostringstream capture;
-    std::streambuf* old = std::cout.rdbuf(capture.rdbuf());
-    simmpi::world_begin(n, [mesh, levels](int) {
-      std::vector<std::string> args = {"poisson_dirichlet", "--mesh", mesh, "--level"};
-      std::istringstream ls(levels); std::string tok;
-      while(ls >> tok) args.push_back(tok);
-      args.push_back("--parti-type"); args.push_back("2level"); args.push_back("naive");
-      std::vector<char*> argv;
-      for(auto& a : args) argv.push_back(const_cast<char*>(a.c_str()));
-      argv.push_back(nullptr);
-      PoissonDirichlet::feat_app_poisson_dirichlet_main(int(args.size()), argv.data());
-    });
-    sim::run_go();
-    simmpi::world_end();
-    std::cout.rdbuf(old);
-    return capture.str();
-  }
-}
-
-HarnessInfo harness_info() { return {"C13", "c13_app", 60000000}; }
-void harness_process_init(int argc, char** argv) { FEAT::Runtime::initialize(argc, argv); }
-
-std::string harness_run()
-{
-  sim::pthread_model_reset();
-  sim::clock_reset();
-  static const int ns[10] = {2, 2, 3, 4, 4, 6, 8, 9, 12, 16};
-  const int n = ns[sim::cfg_int("n_idx", 0, 9)];
-  static const char* meshes[2] = {"/repo/data/meshes/unit-square-quad.xml", "/repo/data/meshes/unit-circle-quad.xml"};
-  const std::string mesh = meshes[0];
-  (void)meshes;
-  const int lmax = int(sim::cfg_int("lvl_max", 2, 4));
-  const int lmin = int(sim::cfg_int("lvl_min", 0, lmax - 1));
-  int layers = int(sim::cfg_weighted("layers", {3, 2}));
-  std::string levels = std::to_string(lmax);
-  if(layers == 1)
-  {
-    int d = 0;
-    for(int k = n / 2; k >= 2; --k) if(n % k == 0) { d = k; break; }
-    if(d >= 2) levels += " " + std::to_string(std::max(lmin, std::min(lmax, lmin + 1))) + ":" + std::to_string(d);
-  }
-  levels += " " + std::to_string(lmin);
-  const std::string outA = run_app_world(n, mesh, levels);
-  Parsed a = parse_output(outA);
-  if(a.cmax < 0 || a.defects.empty()) sim::fail("APP_OUTPUT", "could not find the chosen levels / defect history in the application output of the " + std::to_string(n) + "-rank run: " + outA.substr(0, 400));
-  const std::string outB = run_app_world(1, mesh, std::to_string(a.cmax) + " " + std::to_string(a.cmin));
-  Parsed b = parse_output(outB);
-  if(b.defects.empty()) sim::fail("APP_OUTPUT", "no defect history in the one-rank output");
-  if(a.failed != b.failed) sim::fail("APP_SOLVER_STATUS", "solver FAILED in one of the runs only");
-  long dl = long(a.defects.size()) - long(b.defects.size());
-  if(dl < -1 || dl > 1) sim::fail("APP_ITERATIONS", "PCG iterations: " + std::to_string(a.defects.size() - 1) + " on " + std::to_string(n) + " ranks, " + std::to_string(b.defects.size() - 1) + " on one rank");
-  const size_t m = std::min(a.defects.size(), b.defects.size());
-  for(size_t i = 0; i < m; ++i)
-  {
-    // printed with 6 significant digits; rounding differences grow with the iteration number
-    const double tol = 2e-5 * std::abs(b.defects[i]) + 1e-12 * b.defects[0];
-    if(!(std::abs(a.defects[i] - b.defects[i]) <= tol * double(1 + i)))
-    {
-      char buf[200]; snprintf(buf, sizeof(buf), "PCG defect of iteration %zu: %.6e on %d ranks vs %.6e on one rank", i, a.defects[i], n, b.defects[i]);
-      sim::fail("APP_DEFECT_HISTORY", buf);
-    }
-  }
-  if(a.errors.size() != b.errors.size() || a.errors.empty()) sim::fail("APP_OUTPUT", "error analysis block differs in shape");
-  for(size_t i = 0; i < a.errors.size(); ++i)
-    if(!(std::abs(a.errors[i] - b.errors[i]) <= 1e-5 * std::abs(b.errors[i]) + 1e-14))
-    {
-      char buf[200]; snprintf(buf, sizeof(buf), "error norm #%zu: %.6e on %d ranks vs %.6e on one rank", i, a.errors[i], n, b.errors[i]);
-      sim::fail("APP_ERROR_NORMS", buf);
-    }
-  return "{\"ranks\":" + std::to_string(n) + ",\"levels\":" + sim::jstr(levels) + ",\"chosen\":" + sim::jstr(a.chosen) + ",\"pcg_iterations\":" + std::to_string(a.defects.size() - 1) +
-    ",\"error_norms_compared\":" + std::to_string(a.errors.size()) + "}";
-}
-
-int main(int argc, char** argv) { return harness_main(argc, argv); }
+#define APP_NS PoissonDirichlet
+#define APP_NAME "c13_app"
+#include "c13_app_common.hpp"
